@@ -200,10 +200,12 @@ theorem C09_client_mask_from_oracle (w : World) (f : Frame) (m : Mask) (rest : L
   rw [bufferFrame_eq] at hnf ⊢
   rw [hms] at hnf ⊢
   simp only [] at hnf ⊢
+  have hncc := codec_bufferFrame_ne_cc ({ w with mu := rest } : World).c.codec
+    ({ w with mu := rest } : World).t { f with header := { f.header with mask := some m } }
   generalize ({ w with mu := rest } : World).c.codec.bufferFrame ({ w with mu := rest } : World).t
     { f with header := { f.header with mask := some m } } = q at *
   obtain ⟨c1, t1, r⟩ := q
-  simp only [] at hnf ⊢
+  simp only [] at hnf hncc ⊢
   have hnw : r.isWriteBufferFull = false := by
     cases r with
     | ok u => rfl
@@ -214,7 +216,7 @@ theorem C09_client_mask_from_oracle (w : World) (f : Frame) (m : Mask) (rest : L
         exfalso
         simp only [Res.isWriteBufferFull, if_true] at hnf
         rcases checkConnectionReset_cases (({ w with mu := rest } : World).setCodec c1 t1)
-          (.err (.writeBufferFull g) : Res Unit) with ⟨he, _⟩ | ⟨_, h, _⟩
+          (.err (.writeBufferFull g) : Res Unit) (by intro h; cases h) with ⟨he, _⟩ | ⟨_, h, _⟩
         · rw [he] at hnf
           exact hnf g rfl
         · cases h
@@ -223,7 +225,7 @@ theorem C09_client_mask_from_oracle (w : World) (f : Frame) (m : Mask) (rest : L
   rcases checkConnectionReset_cases
       ({ ({ w with mu := rest } : World).setCodec c1 t1 with
           queued := ({ w with mu := rest } : World).queued ++
-            [{ f with header := { f.header with mask := some m } }] } : World) r
+            [{ f with header := { f.header with mask := some m } }] } : World) r hncc
     with ⟨he, _⟩ | ⟨he, _, _⟩
   · rw [he]; exact ⟨rfl, rfl⟩
   · rw [he]; exact ⟨rfl, rfl⟩
